@@ -34,7 +34,7 @@ fn xor_cmp(a: &[u8; 20], b: &[u8; 20], t: &[u8; 20]) -> std::cmp::Ordering {
     std::cmp::Ordering::Equal
 }
 
-fn metric(r: &mut Report, rng: &mut Rng, per_class: usize) {
+pub fn metric(r: &mut Report, rng: &mut Rng, per_class: usize) {
     for class in 0..=160usize {
         for _ in 0..per_class {
             r.eval();
@@ -97,7 +97,7 @@ fn metric(r: &mut Report, rng: &mut Rng, per_class: usize) {
     }
 }
 
-fn check_str(r: &mut Report, s: &str) {
+pub fn check_str(r: &mut Report, s: &str) {
     r.eval();
     let res = catch_unwind(AssertUnwindSafe(|| Id::from_str(s)));
     let want_ok = s.len() == 40 && s.bytes().all(|c| c.is_ascii_hexdigit());
@@ -263,7 +263,7 @@ fn bep42_point(r: &mut Report, ip_masked: u32, rbyte: u8, rng: &mut Rng, sample:
     }
 }
 
-fn misc_ips(r: &mut Report, rng: &mut Rng, n: usize) {
+pub fn misc_ips(r: &mut Report, rng: &mut Rng, n: usize) {
     // exempt ranges and from_ipv4
     let fixed = ["10.0.0.1", "10.255.255.255", "172.16.0.1", "172.31.255.255", "172.15.0.1", "172.32.0.1", "192.168.1.1", "192.167.1.1", "192.169.0.0", "127.0.0.1", "127.255.0.3", "169.254.1.1", "169.253.1.1", "0.0.0.0", "255.255.255.255", "224.0.0.1", "100.64.0.1", "8.8.8.8", "1.1.1.1", "126.255.255.255", "128.0.0.0"];
     let mut ips: Vec<Ipv4Addr> = fixed.iter().map(|s| s.parse().expect("ip")).collect();
